@@ -29,6 +29,9 @@ def solver_level(prop, tier, level, corpus_fn, with_model=True, with_liveness=Fa
     tcov, _ = sc.trace_part(prop, insts, V, os.path.join(wd, "traces"))
     cov.update(tcov)
     cov["rule"] = sc.rule_text(prop)
+    if tier == "thorough" and prop in ("C03", "C19"):
+        from harness import selftest
+        cov["binding_selftest"] = selftest.run()      # corrupted traces must be rejected (machinery failure otherwise)
     if not with_model:
         cov.setdefault("states", cov.get("trace_states", 0))
         cov.setdefault("transitions", cov.get("trace_states", 0))
@@ -39,9 +42,11 @@ def solver_level(prop, tier, level, corpus_fn, with_model=True, with_liveness=Fa
 def run_property(prop, tier):
     from harness import solverchecks as sc
     if prop == "C01":
-        return solver_level("C01", tier, "exploration", sc.corpus_C01, with_model=False)
+        from harness import c01
+        return c01.run(tier)
     if prop == "C02":
-        return solver_level("C02", tier, "model_checking", sc.corpus_C02, with_replay=True, with_liveness=True)
+        from harness import c02
+        return c02.run(tier)
     if prop == "C03":
         return solver_level("C03", tier, "model_checking", sc.corpus_C03, with_replay=True)
     if prop == "C04":
